@@ -214,7 +214,8 @@ type CreateIndexStmt struct {
 }
 
 // Indexed column, for CreateIndexStmt, and index table constraints.
-// Either Column or Expression is filled. Column is filled if the expression is
+// Either Column or Expression is filled (an empty Expression means a column,
+// whose name can be empty as well). Column is filled if the expression is
 // a single column (as is always the case for PRIMARY KEY and UNIQUE
 // constraints), and Expression is filled in every other case.
 type IndexedColumn struct {
@@ -246,14 +247,19 @@ func newIndexColumn(e Expression, collate string, sort SortOrder) IndexedColumn 
 		// BINARY. Only `(a+1) COLLATE nocase` collates the whole expression.
 		collate = ""
 	}
-	col := AsColumn(e)
-	if lit, ok := e.(string); ok {
+	col, isCol := "", false
+	switch v := e.(type) {
+	case ExColumn:
+		// (a column may have the empty name: what makes it a column is what
+		// was written, not whether Column is filled)
+		col, isCol = string(v), true
+	case string:
 		// SQLite takes a string literal in a list of indexed columns for the
 		// name of a column: UNIQUE ('a') is UNIQUE (a), and so is UNIQUE (('a'))
-		col = lit
+		col, isCol = v, true
 	}
 	ex := ""
-	if col == "" {
+	if !isCol {
 		ex = AsString(e)
 	}
 	return IndexedColumn{
